@@ -353,7 +353,8 @@ def _finish(mod, tier, seed, results, extra, extra_viol, errors, build_notes, t0
         required = required(tier)
     # hook-based observation classes are optional extras: when the tree does not build with the hook feature the checks
     # fall back to the public API and the hook classes are not required
-    missing = [b for b in required if buckets.get(b, 0) == 0 and not (b.startswith("hook-") and buckets.get("hook-unavailable"))]
+    missing = [b for b in required if buckets.get(b, 0) == 0 and not (b.startswith("hook-") and buckets.get("hook-unavailable"))
+               and not (b.startswith("opt-") and buckets.get("opt-unavailable"))]
     if hasattr(mod, "aggregate_requirements"):
         missing += list(mod.aggregate_requirements(buckets, tier))
 
